@@ -1,7 +1,12 @@
 (* Props/C09.v — property C09: size limits and flush deadlines of the batch processor.
    The size half and the "as soon as the buffer reaches send_batch_size" half are theorems over
-   every event sequence of a shard.  The wall-clock half is stated in virtual time in Batch/Time.v. *)
-From Verif Require Import Base.ListX Batch.Split Batch.Shard.
+   every event sequence of a shard.  The deadline half is a theorem in virtual time (Batch/Time.v): the events of the shard loop carry the
+   time at which the loop handled them; the one thing the runtime decides — how late after the timer's
+   expiry the loop gets to run (scheduling, select's choice, a send blocked on the concurrency
+   semaphore: the property's proviso) — is the parameter delta of `well_timed`.
+   Partial in one respect: the clock is the event time of the shard loop; the (unbounded, runtime)
+   delay between a caller's Consume call and the loop's receive is outside the model. *)
+From Verif Require Import Base.ListX Batch.Split Batch.Shard Batch.Time.
 
 (* Every outgoing batch, in every run: not empty; at most send_batch_max_size items when that is
    set; its declared size is its real item count; its contributors' shares add up to it. *)
@@ -23,3 +28,44 @@ Example C09_example :
   let c := {| send_size := 2; max_size := 2; timer := true |} in
   map (s_sent 1) (snd (run 1 c (init 1) [@Recv 1 [((1, 0), [((2, 0), [10; 11; 12; 13; 14])])] 1 1; Timer])) = [2; 2; 1].
 Proof. vm_compute. reflexivity. Qed.
+
+(* Deadline: on every well-timed trace from the creation of the shard (any t0, any timeout, any lateness
+   delta, any arrival times), every outgoing batch carries only items that were accepted at most
+   timeout + delta before it left; when there is no timer (timeout = 0 or send_batch_size = 0) every
+   item leaves in the very step that accepted it. *)
+Theorem C09_deadline : forall d timeout delta c t0 tes st1 os,
+  valid c -> well_timed d timeout delta c (tinit d timeout t0) tes ->
+  trun d timeout c (tinit d timeout t0) tes = (st1, os) ->
+  Forall (fun o => Forall (fun ch : N * N =>
+            fst ch <= ts_time o /\
+            (if timer c then ts_time o <= fst ch + timeout + delta else ts_time o = fst ch)) (ts_carried o)) os.
+Proof. intros d timeout delta c t0 tes st1 os Hv Hw H. exact (deadline d timeout delta c t0 tes st1 os Hv Hw H). Qed.
+Print Assumptions C09_deadline.
+
+(* What is still buffered is younger than the armed timer: accepted less than timeout before its expiry;
+   nothing at all is buffered without a timer. *)
+Theorem C09_buffered_young : forall d timeout delta c t0 tes st1 os,
+  valid c -> well_timed d timeout delta c (tinit d timeout t0) tes ->
+  trun d timeout c (tinit d timeout t0) tes = (st1, os) ->
+  Forall (fun ch : N * N => dl d st1 <= fst ch + timeout) (ages d st1) /\ (timer c = false -> ages d st1 = []).
+Proof. intros d timeout delta c t0 tes st1 os Hv Hw H. exact (buffered_young d timeout delta c t0 tes st1 os Hv Hw H). Qed.
+Print Assumptions C09_buffered_young.
+
+(* The timed run is the run of Shard.v with times attached (so C09_sizes etc. speak about the same sends),
+   and the executable trace check used on the logged traces implies well-timedness. *)
+Theorem C09_timed_refines : forall d timeout c tes st,
+  map ts_send (snd (trun d timeout c st tes)) = snd (run d c (sh d st) (map snd tes)).
+Proof. intros d timeout c tes st. exact (proj1 (trun_untimed d timeout c tes st)). Qed.
+Print Assumptions C09_timed_refines.
+
+Theorem C09_accepts_sound : forall d timeout delta c tes st,
+  taccepts d timeout delta c 0 st tes = true -> well_timed d timeout delta c st tes.
+Proof. intros d timeout delta c tes st H. exact (taccepts_well_timed d timeout delta c tes st H). Qed.
+Print Assumptions C09_accepts_sound.
+
+(* non-vacuity: a trickle trace that is well timed, with a size-triggered flush re-arming the timer *)
+Example C09_deadline_example :
+  taccepts 1 20 3 ex_cfg 0 (tinit 1 20 0) ex_trace = true /\
+  map (fun o => (ts_time o, ts_carried o)) (snd (trun 1 20 ex_cfg (tinit 1 20 0) ex_trace))
+  = [(21, [(5, 1); (12, 1)]); (30, [(25, 1); (28, 1); (30, 1)]); (52, [(44, 1)])].
+Proof. split; vm_compute; reflexivity. Qed.
